@@ -144,17 +144,19 @@ def file_job(job):
         except Exception as e:  # noqa: BLE001
             errors.append(("write", repr(v)[:60], type(e).__name__ + ":" + str(e)[:60]))
     path = os.path.join(scratch, "c01-%d-%d.numbers" % (os.getpid(), idx))
+    # every fourth file is saved in the package form (a folder: archives in Index.zip, other members loose) - also when saved twice
+    pkg = dict(package=True) if idx % 4 == 3 else {}
     try:
         if idx % 3 == 1 and len(values) > 20:
             # the same Document object saved more than once with further writes in between (documents are saved repeatedly in
             # practice): everything written so far must read back from the LAST file
             half = len(values) // 2
-            doc.save(path)
+            doc.save(path, **pkg)
             for (r, c), v in list(zip(pos, values))[half:]:
                 tb.write(r, c, v)
             for (r, c), v in list(zip(pos, values))[:half:7]:
                 tb.write(r, c, v)
-        doc.save(path)
+        doc.save(path, **pkg)
         if idx % 3 == 2 and len(values) > 20:
             # a saved document is opened, edited further and saved again: values read from the file and values written now
             # must both be in the second file
@@ -162,7 +164,7 @@ def file_job(job):
             tbr = docr.sheets[0].tables[0]
             for (r, c), v in list(zip(pos, values))[::5]:
                 tbr.write(r, c, v)
-            docr.save(path)
+            docr.save(path, **pkg)
         doc2 = Document(path)
         tb2 = doc2.sheets[0].tables[0]
         for (r, c), v in zip(pos, values):
@@ -176,7 +178,10 @@ def file_job(job):
     except Exception as ex:  # noqa: BLE001
         errors.append(("save", "file %d shape %s" % (idx, shape), type(ex).__name__ + ":" + str(ex)[:80]))
     finally:
-        if os.path.exists(path):
+        if os.path.isdir(path):
+            import shutil
+            shutil.rmtree(path)
+        elif os.path.exists(path):
             os.remove(path)
     return events, errors
 
